@@ -18,6 +18,10 @@ pub struct Case {
     pub m: u32,
     pub l: usize,
     pub wy: bool,
+    /// 0: FNV / WyHash over fresh random labels; 1: the crate's no-op hasher over hash values base ^ i (neighbours of a fresh
+    /// random base per trial); 2: no-op hasher over hash values i * 2^32 + low 32 bits of the base
+    #[serde(default)]
+    pub family: u8,
     pub s1: Vec<u32>,
     pub s2: Vec<u32>,
     pub trials: u64,
@@ -78,7 +82,7 @@ fn derive(s1: &[u32], d: &Derive, l: usize) -> Vec<u32> {
 }
 
 fn strategy(max_len: usize, max_l: usize, trials: u64) -> impl Strategy<Value = Case> {
-    (prop::sample::select(vec![1u32, 2, 4, 7, 32, 128]), 1usize..=max_l, any::<bool>(), 1u32..9).prop_flat_map(move |(m, l, wy, alpha)| {
+    (prop::sample::select(vec![1u32, 2, 4, 7, 32, 128]), 1usize..=max_l, any::<bool>(), 1u32..9, prop_oneof![3 => Just(0u8), 1 => Just(1u8), 1 => Just(2u8)]).prop_flat_map(move |(m, l, wy, alpha, family)| {
         let hi = max_len.max(l + 1);
         let runs = (prop::collection::vec((0u32..alpha, 1usize..4), 1..6)).prop_map(|rs| rs.into_iter().flat_map(|(s, k)| std::iter::repeat(s).take(k)).collect::<Vec<u32>>());
         let base = prop_oneof![3 => prop::collection::vec(0u32..alpha, l..=hi), 1 => runs].prop_map(move |mut v: Vec<u32>| {
@@ -102,7 +106,7 @@ fn strategy(max_len: usize, max_l: usize, trials: u64) -> impl Strategy<Value = 
         (base, der, any::<u64>()).prop_map(move |(s1, d, seed)| {
             let mut s2 = derive(&s1, &d, l);
             s2.truncate(hi.max(l));
-            Case { m, l, wy, s1, s2, trials, seed }
+            Case { m, l, wy, family, s1, s2, trials, seed }
         })
     })
 }
@@ -117,8 +121,13 @@ fn sample<H: Hasher + Default>(c: &Case, seed: u64, trials: u64) -> Acc {
     let mut d1 = vec![0u64; c.s1.len()];
     let mut d2 = vec![0u64; c.s2.len()];
     for _ in 0..trials {
-        for lab in labels.iter_mut() {
-            *lab = rng.next_u64();
+        let base = rng.next_u64();
+        for (i, lab) in labels.iter_mut().enumerate() {
+            *lab = match c.family {
+                0 => rng.next_u64(),
+                1 => (base ^ i as u64).swap_bytes(),
+                _ => ((base & 0xFFFF_FFFF) | ((i as u64 + 1) << 32)).swap_bytes(),
+            };
         }
         for (i, x) in c.s1.iter().enumerate() {
             d1[i] = labels[*x as usize];
@@ -146,7 +155,15 @@ pub fn eval(c: &Case) -> Eval {
             (est, false, crate::stat::bernstein_tol(0.25, 1.0, L, n as f64))
         }
     };
-    let f = |seed: u64, t: u64| if c.wy { sample::<WyHash>(c, seed, t) } else { sample::<FnvHasher>(c, seed, t) };
+    let f = |seed: u64, t: u64| {
+        if c.family > 0 {
+            sample::<probminhash::nohasher::NoHashHasher>(c, seed, t)
+        } else if c.wy {
+            sample::<WyHash>(c, seed, t)
+        } else {
+            sample::<FnvHasher>(c, seed, t)
+        }
+    };
     let what = format!("ProbOrdMinHash2 m={} l={} s1={:?} s2={:?}", c.m, c.l, c.s1, c.s2);
     let t = if exact {
         decide_mean(&what, p, None, c.trials, c.seed, &f)?
@@ -172,6 +189,7 @@ pub fn eval(c: &Case) -> Eval {
         .class_if(p == 0.0, "p=0")
         .class_if(p == 1.0, "p=1")
         .class_if(!exact, "monte-carlo-reference")
+        .class_if(c.family > 0, "no-op-hasher-neighbouring-hash-values")
         .class(format!("oracle-states<=10^{}", (o.states.max(1) as f64).log10().ceil() as u32)))
 }
 
